@@ -247,12 +247,10 @@ func timeSkeleton(T *Term, base, a, b string) bool {
 	var addends []string
 	cur := T
 	for cur.Op == "time.Time.Add" && len(cur.A) == 2 {
+		// each period is added to the time on its own: the sum of two time.Duration values can wrap
+		// (two valid periods of 150 years each), a time.Time cannot within the supported range
 		d := cur.A[1]
-		if d.Op == "+" && len(d.A) == 2 {
-			addends = append(addends, d.A[0].String(), d.A[1].String())
-		} else {
-			addends = append(addends, d.String())
-		}
+		addends = append(addends, d.String())
 		cur = cur.A[0]
 	}
 	if cur.String() != base || len(addends) != 2 {
